@@ -428,6 +428,8 @@ def gen_server_case(real, rng, cid, n_iter=50, n_clients=3, hostile=0.3, mtu=150
                         continue
                 o = emit("build %s t=%d" % (name, tq))
                 if o and o[0].startswith("pkt"):
+                    if o[0].startswith("pkt ty=3 "):
+                        cl["chal_out"] = True        # the client's own challenge response has left
                     kk = len(crun.eps[name]["emits"]) - 1
                     d = crun.eps[name]["emits"][kk]
                     if rng.random() >= loss:        # the network may lose it
@@ -436,8 +438,10 @@ def gen_server_case(real, rng, cid, n_iter=50, n_clients=3, hostile=0.3, mtu=150
                             items.append((cl["addr"], d, "@%s:%d" % (name, kk)))
                         if rng.random() < dup_next:  # ... with the copy arriving one iteration later
                             again.append((cl["addr"], d, "@%s:%d" % (name, kk)))
-                if cl["phase"] == "up" and conn.status.value == 2 and conn.session_key_bytes and rng.random() < rechal:
+                if cl["phase"] == "up" and conn.status.value == 2 and conn.session_key_bytes and cl.get("chal_out") and rng.random() < rechal:
                     # the (authenticated) client repeats its challenge response in a fresh datagram, right behind its other traffic
+                    # (only once its own answer has left: a second, different answer that overtakes the first is a client that breaks
+                    # the protocol against itself - the server then rejects the late original together with what travels with it)
                     ss, sm = (int(conn.seq_sending) % 65535) + 1, (int(conn.seq_message) % 65535) + 1
                     emit("set %s ss=%d sm=%d" % (name, ss, sm))
                     chal = C.HandshakeClientChallengeResponseMessage()
@@ -773,6 +777,11 @@ def honest_monitor(case, recs, log, ctx):
             if name_of.get(oid) != name or k <= newest.get(name, -1):
                 continue
             newest[name] = k
+            if any(m[1] == 3 for m in emissions.get(name, {}).get(k, [])):
+                # the client's challenge response reaching a connection that is already promoted: some other answer of this very client
+                # (only it holds the key) got there first - not an honest client any more, the server owes that datagram nothing
+                ctx.count("honest:late-challenge-response-skipped")
+                continue
             want = [m[0] for m in emissions.get(name, {}).get(k, []) if m[1] == 6 and m[0] not in seen_seq.get(oid, set())]
             missing = [sq for sq in want if sq not in got.get(oid, set())]
             if missing:
